@@ -348,6 +348,47 @@ class Slice:
 # crates
 # ----------------------------------------------------------------------------
 
+def signature(fn):
+    """return type + parameter types (as printed by rustc)"""
+    return [fn.locals[0]] + [fn.locals[i] for i in range(1, fn.argc + 1)]
+
+
+_SIGNATURES = None
+
+
+def reference_signatures():
+    global _SIGNATURES
+    if _SIGNATURES is None:
+        p = os.path.join(os.path.dirname(os.path.abspath(__file__)), 'props', 'signatures.json')
+        try:
+            with open(p) as f:
+                _SIGNATURES = json.load(f)
+        except OSError:
+            _SIGNATURES = {}
+    return _SIGNATURES
+
+
+def find_renames(lines, crate_name):
+    """Functions of the reference tree that are missing, matched with unknown functions of identical signature
+    (unique both ways): a rename or a move, not a behavioural change.  Returns {new path: reference path}."""
+    ref = reference_signatures().get(crate_name)
+    if not ref or os.environ.get('VERIF_NO_ALIAS'):
+        return {}
+    have = {}
+    for d in lines:
+        if 'fn' in d and d['kind'] != 'Closure':
+            have[d['fn']] = [d['locals'][0]] + [d['locals'][i] for i in range(1, d['argc'] + 1)]
+    missing = {n: sig for n, sig in ref.items() if n not in have}
+    unknown = {n: sig for n, sig in have.items() if n not in ref}
+    out = {}
+    for n, sig in unknown.items():
+        cands = [m for m, msig in missing.items() if msig == sig]
+        back = [u for u, usig in unknown.items() if usig == sig]
+        if len(cands) == 1 and len(back) == 1:
+            out[n] = cands[0]
+    return out
+
+
 class Crate:
     def __init__(self, path):
         self.path = path
@@ -356,8 +397,19 @@ class Crate:
         self.enums = {}
         self.impls = []
         self.meta = {}
+        self.renamed = {}
         with open(path) as f:
-            for line in f:
+            raw = f.read()
+        parsed = [json.loads(l) for l in raw.split('\n') if l.strip()]
+        cname = next((d['crate'] for d in parsed if 'crate' in d), os.path.basename(path).split('.')[0])
+        ren = find_renames(parsed, cname)
+        if ren:
+            # map the new names back to the reference names everywhere (bodies, callees, closures, fn references)
+            for new, old in sorted(ren.items(), key=lambda x: -len(x[0])):
+                raw = re.sub(r'(?<![A-Za-z0-9_:])%s(?![A-Za-z0-9_])' % re.escape(json.dumps(new)[1:-1]), lambda m, old=old: json.dumps(old)[1:-1], raw)
+            self.renamed = ren
+        if True:
+            for line in raw.split('\n'):
                 line = line.strip()
                 if not line:
                     continue
